@@ -2107,7 +2107,9 @@ class CodeGenerator(NodeVisitor):
             self.visit(keyword.value, frame)
             try:
                 val = keyword.value.as_const(frame.eval_ctx)
-            except nodes.Impossible:
+            except Exception:
+                # not a constant, or a constant expression that fails and
+                # raises when it is evaluated at runtime
                 frame.eval_ctx.volatile = True
             else:
                 setattr(frame.eval_ctx, keyword.key, val)
